@@ -560,6 +560,24 @@ def exec_rc(cx, head, tail):
             g2 = guarded(lambda: rows_bits(pssm.reverse_complement().reverse_complement()))
             if g2[0] != "ok" or g2[1] != rows:
                 errs.append("reverse_complement twice is not the identity")
+            # history: p-values asked of the ORIGINAL first (whatever it caches must not leak into
+            # the reverse complement): the reverse complement must answer like a fresh matrix with
+            # the same rows and background
+            if M >= 1:
+                def history():
+                    x = 0.25
+                    orig = mk_pssm(cx.lm, alpha, spec)
+                    orig.pvalue(x)
+                    orig.score(0.1)
+                    rc = orig.reverse_complement()
+                    fresh = mk_pssm(cx.lm, alpha, (rows_bits(rc), spec[1]))
+                    return (f64_bits(rc.pvalue(x)), f64_bits(fresh.pvalue(x)), f64_bits(float(rc.score(0.1))), f64_bits(float(fresh.score(0.1))))
+                g3 = guarded(history)
+                if g3[0] == "ok":
+                    if g3[1][0] != g3[1][1] or g3[1][2] != g3[1][3]:
+                        errs.append("p-value / score of the reverse complement taken after the original was queried differs from a fresh matrix with the same rows and background")
+                elif g3[0] == "panic":
+                    errs.append(f"pvalue/reverse_complement history raised PanicException: {g3[1]}")
     else:
         if g[0] == "ok":
             errs.append("reverse_complement of a protein matrix returned a value")
@@ -1219,6 +1237,10 @@ def generate(cfg, core, out):
         # ---- reverse complement
         for M in [0, 1, 2, 5, 12]:
             spec = (rand_pssm(rng, alpha, M, wild_inf=rng.chance(1, 2)), None)
+            cases.append(f"c17rc ? {alpha} | {pssm_tokens(spec)}")
+        # ... with a non-uniform (not strand-symmetric) background, as log-odds matrices
+        for M in [1, 2, 3, 5]:
+            spec = (logodds_pssm(rng, alpha, M), grid_bg(rng, alpha, False))
             cases.append(f"c17rc ? {alpha} | {pssm_tokens(spec)}")
         # ---- create / stripe
         for _ in range(reps * 3):
